@@ -512,7 +512,9 @@ fn cmd_sched(a: &Value) -> Value {
             } else if violations.len() < 8 {
                 for (prop, what) in found {
                     violations.push(json!({"property": prop, "what": what, "scenario": sc, "seed": run_seed, "workers": workers,
-                        "schedule": o.record.schedule, "events": evs.iter().rev().take(120).rev().collect::<Vec<_>>()}));
+                        "schedule": o.record.schedule, "events": evs.iter().rev().take(120).rev().collect::<Vec<_>>(),
+                        // every event of every enabled hook group (debugging aid for `check replay`)
+                        "raw_events": if a["raw_events"].as_bool() == Some(true) { o.record.events.iter().map(|e| e.to_json()).collect::<Vec<_>>() } else { vec![] }}));
                 }
             }
         }
